@@ -7,7 +7,6 @@ import (
 
 func init() {
 	vpHarnesses["vpH_C07_router"] = vpH_C07_router
-	vpHarnesses["vpH_C07_sessions"] = vpH_C07_sessions
 }
 
 type vpGhostSub struct {
@@ -140,134 +139,5 @@ func vpH_C07_router() {
 	// COUNT is answered by a COUNT reply
 	cnt, isC := router.recv(ctx, reqIDs[0], &ClientCountMsg{SubscriptionID: "c", ReqFilters: []*ReqFilter{{}}}, chans[0]).(*ServerCountMsg)
 	vpAssert(isC && cnt.SubscriptionID == "c", "C07.count-answered")
-	vpReach("end")
-}
-
-// C07 through the public API: each connection is a real RouterHandler.ServeNostr
-// session (its own goroutines) fed through its inbound channel; the harness is
-// the clients. ONE canonical cooperative schedule (the engine's): after every
-// client message all sessions run until they block, so every message is fully
-// processed before the next is sent (the "must" cases of the statement: EOSE
-// received before the EVENT was sent, REQ sent after the OK). Outputs are
-// compared with the ghost registry as multisets per connection.
-func vpH_C07_sessions() {
-	buflen := 2
-	router := NewRouterHandler(buflen)
-	const nconn = 2
-	var recvs [nconn]chan ClientMsg
-	var sends [nconn]chan ServerMsg
-	var done [nconn]chan error
-	ghost := make([][]vpGhostSub, nconn)
-	alive := [nconn]bool{true, true}
-	for i := 0; i < nconn; i++ {
-		recvs[i] = make(chan ClientMsg, 1)
-		sends[i] = make(chan ServerMsg, 16)
-		done[i] = make(chan error, 1)
-		i := i
-		go func() { done[i] <- router.ServeNostr(context.Background(), sends[i], recvs[i]) }()
-	}
-	settle := func() {
-		for i := 0; i < 6; i++ {
-			vpYield()
-		}
-	}
-	drain := func(i int) []ServerMsg {
-		var out []ServerMsg
-		for len(sends[i]) > 0 {
-			out = append(out, <-sends[i])
-		}
-		return out
-	}
-	steps := vpSteps(3, 4)
-	nev := 0
-	for k := 0; k < steps; k++ {
-		c := vpChoice("conn", nconn)
-		vpAssume(alive[c])
-		switch vpChoice("op", 4) {
-		case 0: // REQ
-			sub := vpSym1("sub")
-			var f *ReqFilter
-			if vpChoice("filter", 2) == 0 {
-				f = &ReqFilter{}
-			} else {
-				f = &ReqFilter{Kinds: []int64{vpInt64("fkind")}}
-			}
-			recvs[c] <- &ClientReqMsg{SubscriptionID: sub, ReqFilters: []*ReqFilter{f}}
-			settle()
-			out := drain(c)
-			vpAssert(len(out) == 1, "C07.session-req-one-reply")
-			if len(out) == 1 {
-				eose, isE := out[0].(*ServerEOSEMsg)
-				vpAssert(isE && eose.SubscriptionID == sub, "C07.session-req-answered-by-eose")
-			}
-			replaced := false
-			for i := range ghost[c] {
-				if ghost[c][i].id == sub {
-					ghost[c][i].fs = []*ReqFilter{f}
-					replaced = true
-				}
-			}
-			if !replaced {
-				ghost[c] = append(ghost[c], vpGhostSub{sub, []*ReqFilter{f}})
-			}
-		case 1: // CLOSE
-			sub := vpSym1("sub")
-			recvs[c] <- &ClientCloseMsg{SubscriptionID: sub}
-			settle()
-			vpAssert(len(drain(c)) == 0, "C07.session-close-unanswered")
-			for i := range ghost[c] {
-				if ghost[c][i].id == sub {
-					ghost[c] = append(ghost[c][:i:i], ghost[c][i+1:]...)
-					break
-				}
-			}
-		case 2: // EVENT
-			ev := &Event{ID: fmt.Sprintf("e%d", nev), Pubkey: "A", Kind: vpInt64("kind"), CreatedAt: 1, Tags: []Tag{}}
-			nev++
-			recvs[c] <- &ClientEventMsg{Event: ev}
-			settle()
-			for i := 0; i < nconn; i++ {
-				out := drain(i)
-				var want []string
-				if alive[i] {
-					for _, g := range ghost[i] {
-						if specMatchAny(g.fs, ev) {
-							want = append(want, g.id)
-						}
-					}
-				}
-				nOK := 0
-				var seen []string
-				for _, m := range out {
-					switch m := m.(type) {
-					case *ServerOKMsg:
-						nOK++
-						vpAssert(i == c && m.Accepted && m.EventID == ev.ID, "C07.session-event-answered-by-accepting-ok")
-					case *ServerEventMsg:
-						vpAssert(m.Event == ev, "C07.session-delivery-carries-the-event")
-						vpAssert(vpIndexOf(want, m.SubscriptionID) >= 0, "C07.session-delivery-to-open-matching-subscription")
-						vpAssert(vpIndexOf(seen, m.SubscriptionID) < 0, "C07.session-at-most-once")
-						seen = append(seen, m.SubscriptionID)
-					default:
-						vpAssert(false, "C07.session-unexpected-message")
-					}
-				}
-				if i == c {
-					vpAssert(nOK == 1, "C07.session-one-ok")
-				}
-				exp := len(want)
-				if exp > buflen {
-					exp = buflen
-				}
-				vpAssert(len(seen) >= exp && len(seen) <= len(want), "C07.session-every-open-matching-subscription-served")
-			}
-		case 3: // the client disconnects
-			close(recvs[c])
-			settle()
-			alive[c] = false
-			ghost[c] = nil
-			vpAssert(len(done[c]) == 1, "C07.session-ends-when-its-input-closes")
-		}
-	}
 	vpReach("end")
 }
